@@ -185,6 +185,8 @@ TOKENS = {
     'physical': ('noframe', None), 'wcsa': ('noframe', None),
     'global color=red': ('global', {'color': 'red'}),
     'global color=blue width=2 dash=1': ('global', {'color': 'blue', 'width': 2}),
+    # the line DS9 itself writes at the top of every file: its include=1 is a default, not an override of '-'
+    'global dashlist=8 3 select=1 include=1 source=1': ('global', {}),
     'circle(10,20,3)': ('region', {'shape': 'circle', 'xy': (10.0, 20.0), 'sizes': [3.0], 'angle': None}),
     'circle(30,40,5) # color=green': ('region', {'shape': 'circle', 'xy': (30.0, 40.0), 'sizes': [5.0], 'angle': None, 'color': 'green'}),
     '-box(1,2,3,4,0)': ('region', {'shape': 'rectangle', 'xy': (1.0, 2.0), 'sizes': [3.0, 4.0], 'angle': 0.0, 'include': False}),
